@@ -26,6 +26,7 @@ type Val struct {
 	Local  *ssa.Alloc // root is a local (non-escaping) cell
 	Tuple  []Val
 	Clos   *closInfo
+	Boxed  *Val // for an interface value built by MakeInterface: the boxed value with its static type
 }
 
 type closInfo struct {
@@ -1372,7 +1373,8 @@ func (fr *frame) execInstr(ins ssa.Instruction, st *State) {
 		if v.Path != nil || v.Local != nil {
 			fr.unsup("pointer with static path escapes into interface")
 		}
-		fr.vals[x] = Val{T: c.define("ifc", "Iface", fmt.Sprintf("(mkiface %s %s)", c.typeTag(x.X.Type()), c.box(x.X.Type(), v.T))), Ty: x.Type()}
+		bv := Val{T: v.T, Ty: x.X.Type()}
+		fr.vals[x] = Val{T: c.define("ifc", "Iface", fmt.Sprintf("(mkiface %s %s)", c.typeTag(x.X.Type()), c.box(x.X.Type(), v.T))), Ty: x.Type(), Boxed: &bv}
 	case *ssa.ChangeInterface:
 		v := fr.val(x.X)
 		fr.vals[x] = Val{T: v.T, Ty: x.Type()}
